@@ -142,8 +142,15 @@ def run_property(pid, tier):
             discharged, failed, axioms, alog = audit(pid, spec)
             for n, why in failed.items():
                 broken["theorem:" + n] = why
+            if tier == "thorough":
+                # the independent re-checker replays every declaration of the property's compiled proof modules in a fresh kernel
+                rc_lc, out_lc = sh(["lake", "env", "leanchecker"] + mods, cwd=os.path.join(VERIF, "lean"))
+                leanchecker_note = "leanchecker %s: rc=%s" % (" ".join(mods), rc_lc)
+                if rc_lc != 0:
+                    broken["leanchecker"] = out_lc[-2000:]
     mod = importlib.import_module("props." + pid.lower())
     ctx = {"pid": pid, "tier": tier, "spec": spec, "broken": broken, "translator": tr or {}, "t0": t0}
+    lc_note = locals().get("leanchecker_note")
     try:
         res = mod.run(ctx)
     except Exception:
@@ -160,6 +167,8 @@ def run_property(pid, tier):
     cov.setdefault("checker_cmd", "cd lean && lake build %s && lake env lean <#print axioms for %d theorems>" % (" ".join(sorted({t['module'] for t in spec['theorems']})), nthm))
     tb = ["Lean 4.33 kernel", "axioms ⊆ {propext, Classical.choice, Quot.sound}"] + \
          ["%s: %s" % (n, ",".join(a) or "no axioms") for n, a in sorted(axioms.items())] + list(res.get("trusted_base", []))
+    if lc_note:
+        tb.append(lc_note)
     cov.setdefault("trusted_base", tb)
     cov["theorems"] = [{"name": t["name"], "kind": t.get("kind", "forall"), "ok": t["name"] in discharged} for t in spec["theorems"]]
     cov["translator_changed"] = (tr or {}).get("changed", [])
